@@ -45,3 +45,32 @@ func ValueToPointer(v reflect.Value) reflect.Value {
 
 	return v
 }
+
+// appendResult adds the result for one element of a list to the results for
+// the whole list. The results keep their type as long as every result is of the
+// expected type. When the input was a list of lists the result for an element
+// is itself a list, so the results become a list of anything.
+func appendResult(results reflect.Value, result interface{}) reflect.Value {
+	value := reflect.ValueOf(result)
+	elementType := results.Type().Elem()
+
+	if value.IsValid() && value.Type().AssignableTo(elementType) {
+		return reflect.Append(results, value)
+	}
+
+	if elementType.Kind() != reflect.Interface {
+		anything := reflect.MakeSlice(reflect.TypeOf([]interface{}{}), 0,
+			results.Len()+1)
+		for i := 0; i < results.Len(); i++ {
+			anything = reflect.Append(anything, results.Index(i))
+		}
+
+		results = anything
+	}
+
+	if !value.IsValid() {
+		value = reflect.Zero(results.Type().Elem())
+	}
+
+	return reflect.Append(results, value)
+}
